@@ -74,6 +74,7 @@ def main(argv=None):
     ap.add_argument('prop')
     ap.add_argument('--tier', default=os.environ.get('VERIF_TIER') or 'quick')
     ap.add_argument('--replay')
+    ap.add_argument('--json', action='store_true')
     ap.add_argument('--limit', type=int, default=0,
                     help='debug: only the first N work items')
     ap.add_argument('--no-evidence', action='store_true')
@@ -81,7 +82,7 @@ def main(argv=None):
     prop_id = args.prop.upper()
     mod = load(prop_id)
     if args.replay:
-        return do_replay(mod, args.replay)
+        return do_replay(mod, args.replay, args.json)
     seed = int(os.environ.get('VERIF_SEED', '0') or 0)
     tier = args.tier
     t0 = time.time()
@@ -154,16 +155,18 @@ def main(argv=None):
     for key, v in sorted(fresh.items(), key=lambda kv: str(kv[0]))[:MAX_REPORT]:
         rep = dict(v['replay'], property=prop_id, message=v['msg'],
                    key=v.get('key'))
-        m1 = mod.replay(rep)
-        m2 = mod.replay(rep)
-        if not m1 or m1 != m2:
-            print("HARNESS ERROR: violation does not reproduce identically "
-                  "(%r vs %r) for %s" % (m1, m2, json.dumps(rep)[:1500]))
-            return 2
         path = os.path.join(VERIF, 'replays',
                             '%s-%s.json' % (prop_id, digest(rep)))
         with open(path, 'w') as f:
             json.dump(rep, f, indent=1, default=str)
+        # confirm from the file, twice, each time in a fresh process (same
+        # initial state, no explorer): identical observations or no report
+        m1 = replay_in_fresh_process(prop_id, path)
+        m2 = replay_in_fresh_process(prop_id, path)
+        if not m1 or m1 != m2:
+            print("HARNESS ERROR: violation does not reproduce identically "
+                  "(%r vs %r) for %s" % (m1, m2, json.dumps(rep)[:1500]))
+            return 2
         print("  %s: %s" % (prop_id, v['msg']))
         print("VIOLATION property=%s replay=%s" % (prop_id, path))
         nviol += 1
@@ -221,9 +224,23 @@ def write_evidence(mod, prop_id, tier, seed, agg, bounds, samples, wall,
         json.dump(ev, f, indent=1, default=str)
 
 
-def do_replay(mod, path):
+def replay_in_fresh_process(prop_id, path):
+    import subprocess
+    out = subprocess.run([sys.executable, '-m', 'vf.framework', prop_id,
+                          '--replay', path, '--json'], capture_output=True,
+                         text=True, cwd=VERIF)
+    for line in out.stdout.splitlines():
+        if line.startswith('REPLAY-JSON '):
+            return json.loads(line[len('REPLAY-JSON '):])
+    return None
+
+
+def do_replay(mod, path, as_json=False):
     with open(path) as f:
         rep = json.load(f)
+    if as_json:
+        print('REPLAY-JSON ' + json.dumps(mod.replay(rep), default=str))
+        return 0
     if hasattr(mod, 'describe'):
         print(mod.describe(rep))
     msgs = mod.replay(rep)
